@@ -247,6 +247,20 @@ var foreign = &core.Check{Name: "c01/foreign", Quick: 1500, Thorough: 80000, Fn:
 		c.Class("legacy container")
 	}
 	data := ref.SerializeBOC(roots, v)
+	// a bag may hold more cells than its root reaches: another writer's single-root bag in which a cell that
+	// refers to the root comes first (topological order puts it there) and root_list names the second cell
+	if v.Magic == 0 && len(roots) == 1 && c.Choose("cell before the root", 6) == 0 {
+		parent := ref.NewRCell(ref.Bits{}.AppendUint(0xA5, 8), false, roots[0])
+		raw := ref.RawFromDag([]*ref.RCell{parent, roots[0]}, v)
+		if raw.Roots == 2 && len(raw.RootList) == 2 && raw.RootList[1] != 0 {
+			raw.Roots, raw.RootList = 1, raw.RootList[1:]
+			raw.Resize()
+			if rr, err := ref.ParseBOC(raw.Bytes()); err == nil && len(rr) == 1 && bytes.Equal(rr[0].ReprHash(), roots[0].ReprHash()) {
+				data = raw.Bytes()
+				c.Class("single root that is not the first cell of the bag")
+			}
+		}
+	}
 	c.Note("variant", fmt.Sprintf("%+v", v))
 	c.Note("roots", len(roots))
 	c.Note("boc", trunc(hex.EncodeToString(data)))
